@@ -113,7 +113,11 @@ impl Require {
     /// This will return error for any normal TOML serialization error as well if it's not
     /// possible to serialize as a TOML Table.
     pub fn metadata<T: Serialize>(&mut self, metadata: T) -> Result<(), toml::ser::Error> {
-        if let toml::Value::Table(table) = toml::Value::try_from(metadata)? {
+        // This goes through the textual form instead of `toml::Value::try_from`, since the latter
+        // turns datetimes into tables with a private marker key instead of TOML datetimes.
+        let serialized_metadata = toml::to_string(&metadata)?;
+
+        if let Ok(table) = toml::from_str::<Table>(&serialized_metadata) {
             self.metadata = table;
 
             Ok(())
